@@ -59,6 +59,8 @@ def to_sympy(n, resolve, depth=0):
             return sympy.And(a, b)
         if op == "||":
             return sympy.Or(a, b)
+        if op in ("<<", ">>") and getattr(a, "is_Integer", False) and getattr(b, "is_Integer", False):
+            return sympy.Integer(int(a) << int(b)) if op == "<<" else sympy.Integer(int(a) >> int(b))
         raise NotClosedForm("binary " + op)
     if k == "ConditionalOperator":
         cond = to_sympy(c[0], resolve, depth + 1)
